@@ -243,11 +243,88 @@ def run(ctx):
         ctx.ob("TS-3", f"sampler.propagate_phaseless x {P}: cached overlap coherent at every read", not badr,
                f"stale reads at {badr}" if badr else f"{len(r.reads)} reads COH/LAG", base)
     wrappers_delegate(ctx)
+    aux_index_contracted(ctx, classes, base)
     try:
         from . import c14
         c14.builder_agreement(ctx)
     except ImportError:
         ctx.rep.note("builder sibling agreement (SIB-2) not available yet")
+
+
+def aux_index_contracted(ctx, classes, base):
+    """COV-1 (rules/covariance.py): in the propagation builders and in the phaseless step the auxiliary-field index is
+    eliminated by pairing two tensors that carry it, never by a plain sum of one."""
+    from ..rules.covariance import CovEngine
+    from ..symex import Evaluator as _Ev, sym as _sym, subterms as _sub, mk as _mk
+    p = ctx.p
+    HD, WD = _sym("ham_data"), _sym("wave_data")
+
+    def reductions(eng, root):
+        for x in _sub(root):
+            if x.op == "call":
+                fn = array_fn(x)
+                f = x.args[0]
+                if fn in ("sum", "einsum") or (fn is None and f.op == "attr" and f.args[1] == "sum"):
+                    eng.k(x)
+
+    def report(eng, what, fi):
+        judged = [r for r in eng.reductions if r[2] is not None]
+        if not eng.reductions:
+            ctx.rep.note(f"{what}: no reduction over the auxiliary-field axis could be typed; COV-1 does not apply")
+            return
+        ctx.ob("COV-1", f"{what}: the auxiliary-field index is eliminated by contraction only", not eng.violations,
+               "; ".join(msg for _, msg in eng.violations[:2]) or
+               f"{len(judged)} reduction(s) over the auxiliary axis pair two tensors carrying it, "
+               f"{len(eng.reductions) - len(judged)} not judged", fi)
+
+    seen = set()
+    for P in classes:
+        bfi = p.lookup_method(P, "_build_propagation_intermediates")
+        if bfi is None or bfi.qualname in seen or P.split(".")[-1].startswith("propagator_cpmc"):
+            continue
+        seen.add(bfi.qualname)
+        ev = _Ev(p)
+        R = ev.result(ev.eval_function(bfi, self_class=P))
+        if R is None:
+            continue
+        norb = _mk("attr", _sym("trial"), "norb")
+        seeds = {getitem(HD, const("chol")): ("G", "F"), getitem(HD, const("h1")): ("S", "O", "O"),
+                 getitem(WD, const("rdm1")): ("S", "O", "O")}
+        eng = CovEngine(ev, seeds, norb_terms=[norb])
+        reductions(eng, R)
+        report(eng, bfi.qualname, bfi)
+    # the steps: fields (W, G), force bias (W, G), mean-field shifts (G,) / per-spin (S, G)
+    steps = [(classes[0], base)] if classes else []
+    for P in classes:
+        ffi = p.lookup_method(P, "propagate_free")
+        if ffi is not None and all(ffi is not f_ for _, f_ in steps) and ffi.node is not None and \
+                not P.split(".")[-1].startswith("propagator_cpmc"):
+            steps.append((P, ffi))
+    for P, sfi in steps:
+        try:
+            run_ = G.StepRun(p, sfi, P)
+        except AnalysisError:
+            continue
+        root = run_.result
+        if root is None:
+            continue
+        seeds = {_sym("fields"): ("W", "G"), getitem(HD, const("mf_shifts")): ("G",)}
+        mfp = p.lookup_method(P, "_build_propagation_intermediates")
+        if sfi is not base and mfp is not None:
+            # per-spin shifts of the free-projection step: (S, G) when the builder stacks them, (G,) otherwise
+            ev2 = _Ev(p)
+            R2 = ev2.result(ev2.eval_function(mfp, self_class=P))
+            v = strip_wrappers(getitem(R2, const("mf_shifts_fp"))) if R2 is not None else None
+            if v is not None and v.op == "call" and array_fn(v) in ("stack", "array"):
+                seeds[getitem(HD, const("mf_shifts_fp"))] = ("S", "G")
+            elif v is not None and not (v.op == "getitem" and v.args[0] is R2):
+                seeds[getitem(HD, const("mf_shifts_fp"))] = ("G",)
+        for x in _sub(root):
+            if x.op == "call" and x.args[0].op == "attr" and x.args[0].args[1] == "calc_force_bias":
+                seeds[x] = ("W", "G")
+        eng = CovEngine(run_.ev, seeds)
+        reductions(eng, root)
+        report(eng, f"{sfi.qualname}", sfi)
 
 
 def wrappers_delegate(ctx):
